@@ -1061,7 +1061,7 @@ def dist_key(case):
 
 
 def run(ctx, out, replay=None):
-    n = 5000 if ctx.quick() else 40000
+    n = 5000 if ctx.quick() else 32000
     out.rule = ("random posting sequences (1-6 posts: clauses, implications, at-most-one groups of 0..12 literals "
                 "pairwise and chained with k 3..6 (and refused k), inequalities with up to 8+2 literals, coefficients "
                 "-9..9 incl. 0, repeated variables, both polarities, six operator spellings, both constructions) over "
